@@ -117,3 +117,16 @@ PROPS['C09']={
  'assumptions':SIGNED_ASSUME,
  'obligations':[{'name':'link','module':'harness.signed','cls':'SignedBytes','quick':{'what':'link','prop':'C09','nbytes':2},'thorough':{'what':'link','prop':'C09','nbytes':3}},
                 {'name':'layout','module':'harness.signed','cls':'SignedBytes','quick':{'what':'layout','prop':'C09','nbytes':1},'thorough':{'what':'layout','prop':'C09','nbytes':2}}]}
+
+PROPS['C14']={
+ 'bounds_statement':'panic-freedom obligations, each on the real MIR: link files with arbitrary 64-byte UTF-8 signature key ids through the directory scan (match_signatures / KeyId::prefix); the rule engine on non-normalised paths; PAE decoding of arbitrary short inputs and of inputs whose length field is usize::MAX; key importers on non-keys with pem / ring constructors stubbed as "may fail"; the whole verification pipeline on adversarial but well-typed metadata is covered by the panic checks inside C01/C02/C07/C08/C13/C15 (every panic path there is reported as a violation).',
+ 'assumptions':PIPE_ASSUME+UNIT_ASSUME+['out of reach: the JSON text parsers (serde_json) on arbitrary bytes, derive-generated visitors, stack exhaustion, allocation failure; non-termination is excluded structurally (all loops run over finite collections), not solved'],
+ 'obligations':[
+  {'name':'keyid_prefix','module':'harness.C14','cls':'KeyIdPrefix','quick':{},'thorough':{},'validate':{'quick':4,'thorough':8}},
+  {'name':'rules_non_normal','module':'harness.C14','cls':'RulesNonNormal','quick':{},'thorough':{}},
+  {'name':'importers','module':'harness.C14','cls':'Importers','quick':{},'thorough':{}},
+  {'name':'pae_prefix','module':'harness.C20','cls':'UnpackTotal','quick':{'n':6,'shape':'prefix'},'thorough':{'n':9,'shape':'prefix'}},
+  {'name':'pae_free','module':'harness.C20','cls':'UnpackTotal','quick':{'n':7,'shape':'free'},'thorough':{'n':8,'shape':'free'}},
+  {'name':'pae_maxlen','module':'harness.C20','cls':'UnpackTotal','quick':{'n':2,'shape':'maxlen'},'thorough':{'n':3,'shape':'maxlen'}},
+  {'name':'pae_maxlen2','module':'harness.C20','cls':'UnpackTotal','quick':{'n':2,'shape':'maxlen2'},'thorough':{'n':3,'shape':'maxlen2'}},
+ ]}
